@@ -350,8 +350,13 @@ def arith(op, a, b):
     if op == "<<":
         if isinstance(a, int) and a == 1:
             return mk_int(specfn.pow2(y))
+        if specfn.is_pow2_term(x):
+            return mk_int(specfn.pow2(z3.simplify(x.arg(0) + y)))         # 2**k << c = 2**(k+c)   (c >= 0)
         return mk_int(x * specfn.pow2(y))
     if op == ">>":
+        if specfn.is_pow2_term(x) and isinstance(b, int) and b >= 0:
+            k = x.arg(0)                                                    # 2**k >> c = 2**(k-c), 0 when c > k
+            return mk_int(z3.If(k >= b, specfn.pow2(z3.simplify(k - b)), z3.IntVal(0)))
         if isinstance(b, int) and b >= 0:
             return mk_int(x / (2 ** b))
         return mk_int(x / specfn.pow2(y))
